@@ -184,8 +184,12 @@ def gen_occ(rng, flag):
         return (flag, None)
     if flag in INT_FLAGS:
         t = rnd_int_text(rng)
-        if flag == "--cert-reqs" and t.lstrip("-").isdigit() and t.isascii():
-            t = str(rng.choice([0, 1, 2]))
+        if flag == "--cert-reqs":
+            try:
+                int(t)      # whatever argparse's type=int accepts ("+3", " 3", "1_0", ...) must be a valid ssl.VerifyMode
+                t = str(rng.choice([0, 1, 2]))
+            except ValueError:
+                pass
         return (flag, t)
     if flag in VERIFY_FLAGS:
         return (flag, rng.choice(["CERT_NONE", "CERT_OPTIONAL", "CERT_REQUIRED", "CERT_REQUIRED", "bogus", ""]))
